@@ -607,6 +607,10 @@ pub struct Analysis {
     /// direct number operands of + - / direct number arguments of min/max/clamp whose single units
     /// have known, different dimensions (px + s): Sass documents an error
     pub must_reject: Vec<String>,
+    /// nested min()/max()/clamp() whose arguments are all numbers, some unitless and some not: Sass
+    /// computes a number, but which unit it has (possibly none) depends on the values - and a
+    /// unitless running minimum is comparable with everything, so later pairs are never checked
+    pub nested_number_of_unknown_unit: u32,
     /// unitless and unit-ful number operands of + or - in calc()/clamp() context (finding #19)
     pub unitless_sum_calc: Vec<String>,
     /// the same inside min()/max(): allowed for backwards compatibility with the global functions
@@ -780,6 +784,10 @@ fn shape(n: &Node, vars: &Vars, an: &mut Analysis, in_minmax: bool, depth: u32, 
                 return shapes.into_iter().next().unwrap_or(Shape::Sym);
             }
             check_args(name, &shapes, an);
+            let unitless = |s: &Shape| matches!(s, Shape::Plain(u) if u.is_unitless());
+            if !top && shapes.iter().all(|s| matches!(s, Shape::Plain(_))) && shapes.iter().any(unitless) && !shapes.iter().all(unitless) {
+                an.nested_number_of_unknown_unit += 1;
+            }
             let mut first: Option<&Units> = None;
             for s in &shapes {
                 match s {
